@@ -217,8 +217,12 @@ class ModelCacheMixin:
 
     def split(self):
         results = super().split()
-        for r in results:
-            r._models = {m.filter(r.variables) for m in self._models}
+        if self._models:
+            for r in results:
+                r._models = {m.filter(r.variables) for m in self._models}
+        # else: keep what each part learned while it was built -- a part that consists of `x == c` has recorded the model
+        # {x: c} and marked x as exhausted; emptying its model set would leave the marks without models, and eval(x, n)
+        # would then return no value at all
         return results
 
     def combine(self, others):
